@@ -173,6 +173,9 @@ func runC15(c *fw.Ctx, cs fw.Case) {
 				limit = 2
 			}
 			withTable := rc.positionDetermined && r.Intn(2) == 0
+			if withTable {
+				limit = ttSafeDepth(h, limit) // with a table: no repetition draw inside any of the trees
+			}
 			var tt search.TranspositionTable = search.NoTranspositionTable{}
 			if withTable {
 				tt, _ = newTable(ctx, r.Intn(7))
